@@ -822,3 +822,4 @@ canary('c01-long-atoms-by-chars', 'C01', ENCF, "let long_atoms = atoms.iter().an
 canary('c14-too-many-atoms-256', 'C14', ENCF, "    if atom_set.len() > 255 {", "    if atom_set.len() > 256 {", 'PREMISE')
 canary('c14-scratch-cache-dropped', 'C14', DEC, "    let (remaining, term) = parse_versioned_term_with_cache(data, cache).map_err(from_nom_error)?;",
        "    let mut scratch = cache.clone();\n    let (remaining, term) = parse_versioned_term_with_cache(data, &mut scratch).map_err(from_nom_error)?;", 'cache-copy-not-written-back')
+canary('c15-option-nil-is-none', 'C15', 'crates/erltf_serde/src/de.rs', "            _ => visitor.visit_some(self),\n", "            OwnedTerm::Nil => visitor.visit_none(),\n            _ => visitor.visit_some(self),\n", 'none-for:Nil')
